@@ -292,6 +292,10 @@ pub fn check_h(ctx: &mut Ctx, h: &H, context: &[&str], style: &Style, tag: &str)
                 }
                 ctx.count(if exists { "diagnostics:already-exists" } else { "diagnostics:not-in-scope" });
             }
+            // (How many further diagnostics a rejected program gets is a matter of error recovery,
+            // which the property does not fix: after a re-binding gram drops the name altogether,
+            // so later uses of the outer binding are reported as well. Counting diagnostics was
+            // tried and alarmed on the unchanged tree; it demanded more than the property states.)
         }
     }
 }
@@ -354,7 +358,23 @@ impl Prop for C08P {
                 let nv = count_vars(&h);
                 let nb = count_binders(&h);
                 let names = all_names(&h);
-                for _ in 0..12 {
+                for round in 0..12 {
+                    if round % 3 == 2 && nv > 1 && nb > 0 {
+                        // two or three faults at once, sharing a name: an error must not leak
+                        // into the resolution of the rest of the program
+                        let name = if r.chance(1, 2) { "qq_unbound".to_owned() } else { names.get(r.usize(names.len().max(1))).cloned().unwrap_or_else(|| "qq_unbound".to_owned()) };
+                        let mut m = rename_nth_var(&h, r.usize(nv), &name);
+                        m = rename_nth_var(&m, r.usize(nv), &name);
+                        if r.chance(1, 2) {
+                            m = rename_nth_binder(&m, r.usize(nb), &name);
+                        }
+                        if r.chance(1, 3) {
+                            m = rename_nth_binder(&m, r.usize(nb), &name);
+                        }
+                        ctx.count("perturbation:several-faults-sharing-a-name");
+                        check_h(ctx, &m, &context, &style, "multi");
+                        continue;
+                    }
                     if nv > 0 && r.chance(1, 2) {
                         let k = r.usize(nv);
                         let m = rename_nth_var(&h, k, "qq_unbound");
